@@ -12,7 +12,7 @@ use std::{cmp::Ordering, fmt};
 /// Signed wrapper of Uint128
 /// very minimalist only has bare minimum functions for
 /// basic signed arithmetic
-#[derive(Clone, Copy, Debug, PartialEq, Eq, JsonSchema)]
+#[derive(Clone, Copy, Debug, JsonSchema)]
 pub struct Integer {
     pub value: Uint128,
     pub negative: bool,
@@ -55,15 +55,16 @@ impl Integer {
 
     /// create a new negative Integer with the given value
     pub fn new_negative<T: Into<Uint128>>(value: T) -> Self {
+        let value: Uint128 = value.into();
         Self {
-            value: value.into(),
-            negative: true,
+            value,
+            negative: !value.is_zero(),
         }
     }
 
     /// turns positive to negative or negative to positive
     pub fn invert_sign(mut self) -> Self {
-        self.negative = !self.negative;
+        self.negative = !self.negative && !self.value.is_zero();
         self
     }
 
@@ -75,12 +76,12 @@ impl Integer {
 
     #[allow(missing_docs)]
     pub fn is_negative(&self) -> bool {
-        self.negative
+        self.negative && !self.value.is_zero()
     }
 
     #[allow(missing_docs)]
     pub fn is_positive(&self) -> bool {
-        !self.negative
+        !self.is_negative()
     }
 
     #[allow(missing_docs)]
@@ -245,6 +246,15 @@ impl Integer {
         }
     }
 }
+
+// Equality: zero has a single value whatever the sign flag says
+impl PartialEq for Integer {
+    fn eq(&self, other: &Self) -> bool {
+        self.value == other.value && self.is_negative() == other.is_negative()
+    }
+}
+
+impl Eq for Integer {}
 
 // Conversion
 impl Default for Integer {
